@@ -164,7 +164,7 @@ def call_spec_fn(self, name, e, st):
             return bool_val(rec is not None and (other is None or rec[0] > other[0]))
         if rec is None:
             # no such call on this path: an unconstrained value, so that the obligation mentioning it fails
-            return Val(Int, fresh("no_such_call", z3.IntSort()))
+            return Unknown(f"no call of {q} on this path")
         if name == "last_result":
             return rec[2]
         return rec[1][e.args[1].value]
@@ -230,7 +230,8 @@ def call(self, e, st):
         key = ast.unparse(f)
         if key in cm:
             self.assume_log(f"call model: {key}(...) evaluates to `{cm[key]}`")
-            yield self.spec_eval(cm[key], st), st
+            for _, s2 in self.eval_args(e, st):          # the arguments are still evaluated (for their effects)
+                yield self.spec_eval(cm[key], s2), s2
             return
     # specification functions
     if isinstance(f, ast.Name) and self.spec and (f.id in SPEC_NAMES or f.id in self.reg.spec_fns) \
@@ -470,7 +471,9 @@ def call_builtin(self, name, args, kwargs, st, node):
             raise Untranslatable("sum over filtered comprehension")
         from .engine import ssum_fn
         v = x if isinstance(x, Val) and isinstance(x.t, Seq) else self.materialise(self.view_of(x, st), st, Int)
-        if v.t.elt != Int:
+        if isinstance(v.t.elt, Opt) and v.t.elt.elt == Int:
+            v = self.unopt_seq(v, st)
+        elif v.t.elt != Int:
             v = self.materialise(self.view_of(v, st), st, Int)
         r = ssum_fn()(v.z)
         if len(a) > 1:
@@ -480,7 +483,12 @@ def call_builtin(self, name, args, kwargs, st, node):
     if name in ("all", "any"):
         view = self.view_of(a[0], st)
         i = fresh("q", z3.IntSort())
-        body = self.truth(view.at(i), st)
+        saved_b = getattr(self, "_cur_bound_ids", None)
+        self._cur_bound_ids = set(saved_b or ()) | {i.get_id()}
+        try:
+            body = self.truth(view.at(i), st)
+        finally:
+            self._cur_bound_ids = saved_b
         g = z3.And(0 <= i, i < view.length)
         yield bool_val(z3.ForAll([i], z3.Implies(g, body)) if name == "all" else z3.Exists([i], z3.And(g, body))), st
         return
@@ -614,7 +622,9 @@ def call_builtin(self, name, args, kwargs, st, node):
             if len(outs) != 1:
                 raise Untranslatable("map function forks")
             return outs[0][0]
-        yield View(n, at, None), st
+        mv = View(n, at, None)
+        mv.inner = vs[0] if len(vs) == 1 else None
+        yield mv, st
         return
     if name == "tuple":
         if not a:
@@ -975,9 +985,28 @@ def call_method(self, recv, name, args, kwargs, st, node):
         t = recv.t
         if isinstance(t, Obj):
             c = self.reg.find_method(t.cls, name)
+            if c is not None and self.lenient and name in self.c.pure_calls and self.cur_fn == self.c.qual:
+                # the caller's contract declares this call irrelevant to what it states: result unknown, no effect
+                self.assume_log(f"lenient: {t.cls}.{name}(...) is treated as pure with an unknown result here "
+                                f"(its own contract is discharged separately)")
+                hint = self.c.locals.get(f"${name}")
+                yield (self.fresh_of_type(hint, st, name) if hint is not None else Unknown(f"pure call {name}")), st
+                return
             if c is None:
                 mm = MIXINS.get(name)
                 if mm is not None and self.reg.find_method(t.cls, "__getitem__") is not None:
+                    # the method is modelled as the one INHERITED from the collections.abc mixin, defined through
+                    # __getitem__/__delitem__/...; that model is void if the class overrides it without a contract
+                    cs = self.reg.classes.get(t.cls)
+                    if cs is not None and cs.file and not cs.file.startswith("verif:"):
+                        try:
+                            self.src.find_in(cs.file, f"{t.cls}.{name}")
+                            overridden = True
+                        except ContractError:
+                            overridden = False
+                        if overridden:
+                            raise Untranslatable(f"{t.cls}.{name} is defined in the source but has no contract "
+                                                 f"(it was modelled as the inherited mixin method)")
                     yield from mm(self, recv, args, kwargs, st, node)
                     return
                 if self.lenient and name in self.c.pure_calls:
@@ -1001,6 +1030,8 @@ def call_method(self, recv, name, args, kwargs, st, node):
             az = [self.coerce(self.guess_tuple(x, st), at, st).z for x, at in zip(a, ats)]
             f = z3.Function(f"meth_{t.nm}_{name}", t.sort(), *[at.sort() for at in ats], rt.sort())
             self.assume_log(f"A2: {t.nm}.{name}() is pure and deterministic (uninterpreted function)")
+            if (t.nm, name) in self.reg.opaque_raises:
+                self.fork_raise(st, fresh("user_code_fails", z3.BoolSort()), self.reg.opaque_raises[(t.nm, name)])
             yield Val(rt, f(recv.z, *az)), st
             return
         if isinstance(t, Opt):
@@ -1365,6 +1396,8 @@ def call_contract(self, c, args, kwargs, st, node):
     if extra_reqs:
         menv = dict(self.entry.env)
         menv.update(st.env)
+        if "self" in menv:
+            menv["caller_self"] = menv["self"]      # the callee's `self` shadows the caller's
         menv.update(env)
         ms = State(menv, st.heap, st.pc, st.next_ref, st.ghost, st.labels)
         for k, r in enumerate(extra_reqs):
@@ -1484,7 +1517,16 @@ def call_generator_view(self, c, args, kwargs, st, node):
             tgt.assume(z3.Implies(z3.And(0 <= i, i < n), z))
         return it
     self.assume_log("A4: generators are treated as the eager sequence of their yielded values")
-    return View(n, at, rt.elt)
+    gv = View(n, at, rt.elt)
+    if c.complete:
+        def complete_inst(wv, j, tgt):
+            """The callee's completeness at the value wv: if wv satisfies `when`, it is the element at position j."""
+            wv = self.coerce(wv, c.complete["type"], tgt)
+            genv = State(dict(env), tgt.heap, tgt.pc, tgt.next_ref, dict(tgt.ghost, **{c.complete["var"]: wv}), tgt.labels)
+            cond = z3.And(*[self.spec_truth(r, genv, old=pre) for r in c.complete["when"]])
+            tgt.assume(z3.Implies(cond, z3.And(0 <= j, j < n, elems(j) == wv.z)))
+        gv.complete_inst = complete_inst
+    return gv
 
 
 def havoc_modifies(self, c, env, st):
@@ -1644,6 +1686,11 @@ def construct(self, cls, args, kwargs, st, node):
     obj = Val(Obj(cls), self.new_ref(st))
     c = self.reg.contracts.get(cls + ".__init__")
     if c is None:
+        if self.lenient:
+            # an object whose construction the contract does not speak about: fresh reference, fields unknown
+            self.assume_log(f"lenient: {cls}(...) allocates a fresh object and changes nothing the contract speaks about")
+            yield obj, st
+            return
         raise Untranslatable(f"constructor of {cls} has no contract")
     for _, s in self.call_contract(c, [obj] + list(args), kwargs, st, node):
         yield obj, s
